@@ -94,8 +94,10 @@ class TornadoEventLoop(EventLoop):
         Call all the registered idle callbacks.
         """
         try:
-            for callback in self._idle_callbacks.values():
-                callback()
+            # a callback may remove (or add) idle callbacks: iterate over a snapshot, skip the removed ones
+            for handle, callback in list(self._idle_callbacks.items()):
+                if handle in self._idle_callbacks:
+                    callback()
         finally:
             self._idle_asyncio_handle = None
 
